@@ -452,9 +452,15 @@ class SimpleJSONRPCDispatcher(SimpleXMLRPCDispatcher, object):
                 return fault
             except:
                 # Method exception
-                err_lines = traceback.format_exception(*sys.exc_info())
+                # (the exception's notes and the details of a SyntaxError
+                # are printed around its "Type: text" line: don't look for
+                # that line at a fixed position of the formatted trace)
+                exc_type, exc_value, exc_tb = sys.exc_info()
                 trace_string = "{0} | {1}".format(
-                    err_lines[-2].splitlines()[0].strip(), err_lines[-1]
+                    traceback.format_tb(exc_tb)[-1].splitlines()[0].strip(),
+                    "".join(
+                        traceback.format_exception_only(exc_type, exc_value)
+                    ),
                 )
                 fault = Fault(
                     -32603,
@@ -532,9 +538,10 @@ class SimpleJSONRPCRequestHandler(SimpleXMLRPCRequestHandler):
         except:
             # Exception: send 500 Server Error
             self.send_response(500)
-            err_lines = traceback.format_exception(*sys.exc_info())
+            exc_type, exc_value, exc_tb = sys.exc_info()
             trace_string = "{0} | {1}".format(
-                err_lines[-2].splitlines()[0].strip(), err_lines[-1]
+                traceback.format_tb(exc_tb)[-1].splitlines()[0].strip(),
+                "".join(traceback.format_exception_only(exc_type, exc_value)),
             )
             fault = jsonrpclib.Fault(
                 -32603, "Server error: {0}".format(trace_string), config=config
